@@ -305,7 +305,10 @@ def _make_expand_before_binary_op_rules() -> list:
     """Create rewrite rules for removing Expand before each supported binary op."""
     rules = []
     for op_type in _BROADCAST_BINARY_OPS:
-        rules.append(_ExpandFirstInput.rule(op_type))
+        if op_type != "PRelu":
+            # PRelu's slope is only unidirectionally broadcastable to X (the output has X's shape):
+            # an Expand on X cannot be replaced by broadcasting against the slope.
+            rules.append(_ExpandFirstInput.rule(op_type))
         rules.append(_ExpandSecondInput.rule(op_type))
     return rules
 
